@@ -622,6 +622,18 @@ class CallMixin:
 
     def b_sorted(self, args, kwargs, st):
         v = args[0]
+        from .values import SymAtts, AbsSeq
+        if isinstance(v, Ref) and isinstance(st.deref(v), SymAtts):
+            v = Sym("atts", st.deref(v).t)
+        if isinstance(v, Sym) and v.tag == "atts" and not kwargs:
+            # the keys of a symbolic attribute dict, in some order: an abstract sequence of present keys
+            a = v.t
+            n = T.NKEYS(a)
+            st.fact(n >= 0, n <= len(T.ATT_KEYS), z3.Implies(a == T.NOATTS, n == 0))
+            st.add_inst(lambda k, a=a, n=n: z3.Implies(z3.And(k >= 0, k < n),
+                                                        z3.And(T.SORTEDKEY(a, k) >= 0, T.SORTEDKEY(a, k) < len(T.ATT_KEYS),
+                                                               T.att_field_at(a, T.SORTEDKEY(a, k)) != 0)))
+            return AbsSeq(n, lambda k, a=a: Sym("attkey", T.SORTEDKEY(a, k), origin=("keyof", a)))
         if isinstance(v, (tuple, dict, frozenset)) and not kwargs:
             return st.alloc(ListV(items=sorted(v)))
         if isinstance(v, Ref) and isinstance(st.deref(v), ListV) and st.deref(v).items is not None \
@@ -721,6 +733,11 @@ class CallMixin:
             if isinstance(o, AbsV) and name in ("append", "extend", "pop", "clear", "insert", "remove", "update", "sort"):
                 o.term = fresh("abs", T.I)      # an opaque object is mutated: its contents are now unknown
                 return None
+        from .values import SymAtts as _SA
+        if isinstance(recv, Ref) and isinstance(st.deref(recv), _SA) and name == "get":
+            recv = Sym("atts", st.deref(recv).t)
+        if isinstance(recv, Sym) and recv.tag == "atts" and name == "get" and 1 <= len(args) <= 2 and not kwargs:
+            return self.atts_getitem(recv, args[0], st, default=(args[1] if len(args) > 1 else None))
         if isinstance(recv, Sym) and recv.tag in CLASS_OF_TAG:
             return self.call_method_contract(recv, name, args, kwargs, st)
         if isinstance(recv, (str, bytes)) or (isinstance(recv, Sym) and recv.tag in ("str", "bytes")):
